@@ -250,7 +250,9 @@ Apply ==
            f == Top IN
        CASE f[1] = "binop"  -> Go(<<"E", f[3]>>, Append(Pop, <<"binop2", f[2], v>>))
          [] f[1] = "binop2" -> LET res == BinOp(f[2], f[3], v) IN
-                               IF res = Undefined THEN Stuck(<<"undefined binop", f[2], f[3], v>>) ELSE Go(<<"V", res>>, Pop)
+                               IF f[2] \in {"//", "%"} /\ f[3][1] \in {"int", "bool"} /\ v[1] \in {"int", "bool"} /\ v[2] = 0
+                               THEN Go(<<"P", "division by zero">>, Pop)      \* Python raises, Guppy panics: both stop here
+                               ELSE IF res = Undefined THEN Stuck(<<"undefined binop", f[2], f[3], v>>) ELSE Go(<<"V", res>>, Pop)
          [] f[1] = "unop"   -> LET res == UnOp(f[2], v) IN
                                IF res = Undefined THEN Stuck(<<"undefined unop", f[2], v>>) ELSE Go(<<"V", res>>, Pop)
          [] f[1] = "boolop" ->
